@@ -297,6 +297,82 @@ fn run_seq(now: u64, reqs: &[(Req, Dl, usize)]) -> Vec<Fail> {
     fails
 }
 
+// ---- the public Scheduler handle: whatever method is used, the origin is the same one (C07: same time, same target
+// model, same handle => scheduling order), and validation is that of the request it forwards to (C08)
+#[derive(Clone, Copy, Debug, PartialEq)]
+enum HReq {
+    Schedule,      // Scheduler::schedule(deadline, <action built beforehand>)
+    Event,         // Scheduler::schedule_event
+    KeyedEvent,    // Scheduler::schedule_keyed_event
+    Periodic,      // Scheduler::schedule_periodic_event (period 5: only the first occurrence is looked at)
+    KeyedPeriodic, // Scheduler::schedule_keyed_periodic_event
+}
+fn run_handle(now: u64, reqs: &[(HReq, u64)]) -> Vec<Fail> {
+    FUEL.store(0, Ordering::Relaxed);
+    let mut fails: Vec<Fail> = Vec::new();
+    let queue: Arc<Mutex<SchedulerQueue>> = Arc::new(Mutex::new(PriorityQueue::new()));
+    let handle = Scheduler::new(queue.clone(), AtomicTimeReader(Arc::new(AtomicU64::new(now))));
+    let sender = Sender::new(Rec { log: Vec::new() });
+    let addr = Address(sender.clone());
+    let period = Duration::from_secs(5);
+    let mut want: Vec<(u64, usize, u32)> = Vec::new(); // (deadline, request number, payload)
+    for (k, (req, d)) in reqs.iter().enumerate() {
+        let arg = 100 + k as u32;
+        let dl = Duration::from_secs(*d);
+        let r: Result<(), SchedulingError> = match req {
+            HReq::Schedule => {
+                let s2 = sender.clone();
+                handle.schedule(dl, Action::new(OnceAction::new(process_event(handler, arg, s2))))
+            }
+            HReq::Event => handle.schedule_event(dl, handler, arg, &addr),
+            HReq::KeyedEvent => handle.schedule_keyed_event(dl, handler, arg, &addr).map(|_| ()),
+            HReq::Periodic => handle.schedule_periodic_event(dl, period, handler, arg, &addr),
+            HReq::KeyedPeriodic => handle.schedule_keyed_periodic_event(dl, period, handler, arg, &addr).map(|_| ()),
+        };
+        if r.is_ok() != (*d > 0) {
+            fails.push(("accepted-iff-future-deadline-and-non-zero-period", "C08", format!("Scheduler request #{} ({:?}, deadline now+{}) was {}", k, req, d, if r.is_ok() { "accepted" } else { "rejected" })));
+            return fails;
+        }
+        if r.is_ok() {
+            want.push((now + d, k, arg));
+        }
+    }
+    if handle.time() != MonotonicTime(now) {
+        fails.push(("request-does-not-move-the-time", "C08", format!("time is {:?} after the requests", handle.time())));
+    }
+    want.sort();
+    // what a step does with equal keys: it runs them in queue order; different keys of one time are separate tasks, so
+    // the requests of ONE handle for one time must all carry the same key
+    let mut keys: Vec<((MonotonicTime, usize), u32)> = Vec::new();
+    loop {
+        burn();
+        let e = queue.lock().unwrap().pull();
+        match e {
+            Some((key, action)) => {
+                let before = sender.with(|m| m.log.len());
+                block_on(action.into_future());
+                let got = sender.with(|m| m.log.get(before).copied());
+                keys.push((key, got.unwrap_or(0)));
+            }
+            None => break,
+        }
+    }
+    let got: Vec<u32> = keys.iter().map(|k| k.1).collect();
+    let exp: Vec<u32> = want.iter().map(|w| w.2).collect();
+    if got != exp {
+        fails.push(("one-handle-one-origin-requests-in-scheduling-order", "C07", format!("payloads in queue order {:?}, expected {:?} (payload 100+k = request #k)", got, exp)));
+        return fails;
+    }
+    for w in keys.windows(2) {
+        if w[0].0 .0 == w[1].0 .0 && w[0].0 .1 != w[1].0 .1 {
+            fails.push(("one-handle-one-origin-requests-in-scheduling-order", "C07",
+                format!("two requests of the same Scheduler handle for the same time and model are queued under different origins ({} and {}): a step runs them as separate tasks, in no particular order", w[0].0 .1, w[1].0 .1)));
+            return fails;
+        }
+    }
+    fails
+}
+
 fn main() {
     let _thorough = std::env::args().any(|a| a == "--thorough");
     panic::set_hook(Box::new(|_| {}));
@@ -369,10 +445,43 @@ fn main() {
             break;
         }
     }
+    // sequences of up to three (thorough: four) requests through the public Scheduler handle
+    let hreqs = [HReq::Schedule, HReq::Event, HReq::KeyedEvent, HReq::Periodic, HReq::KeyedPeriodic];
+    let hopts: Vec<(HReq, u64)> = hreqs.iter().flat_map(|r| [0u64, 1, 2].into_iter().map(move |d| (*r, d))).collect();
+    for hlen in 1..=(if _thorough { 4 } else { 3 }) {
+        let mut idx = vec![0usize; hlen];
+        loop {
+            let seq: Vec<(HReq, u64)> = idx.iter().map(|i| hopts[*i]).collect();
+            for now in [0u64, 5] {
+                total += 1;
+                let r = panic::catch_unwind(|| run_handle(now, &seq));
+                let fl = match r {
+                    Ok(x) => x,
+                    Err(_) => vec![("request-panicked-or-did-not-return", "C08", "a request of the sequence panicked or ran out of fuel".to_string())],
+                };
+                for (check, props, detail) in fl {
+                    *counts.entry(check).or_insert(0) += 1;
+                    first.entry(check).or_insert((props.to_string(), format!("{{\"now\":{},\"requests_through_one_Scheduler_handle\":\"{:?}\"}}", now, seq), detail));
+                }
+            }
+            let mut i = 0;
+            while i < hlen {
+                idx[i] += 1;
+                if idx[i] < hopts.len() {
+                    break;
+                }
+                idx[i] = 0;
+                i += 1;
+            }
+            if i == hlen {
+                break;
+            }
+        }
+    }
     let fs: Vec<String> = first
         .iter()
         .map(|(k, (props, sc, detail))| format!("{{\"check\":\"{}\",\"props\":\"{}\",\"count\":{},\"scenario\":{},\"detail\":{:?}}}", k, props, counts[k], sc, detail))
         .collect();
-    println!("{{\"scenarios\":{},\"samples\":[{}],\"bound\":\"one request per scenario: 8 request forms (Scheduler::schedule with each of the 4 action kinds built beforehand; the 4 schedule_*_event forms) x now in {{0,5}} x empty / one-entry queue x 7 deadlines (relative 0,1,3; absolute now-1, now, now+1, now+4) x periods {{0,1,2}} x 2 origins x 4 follow-ups (deliver, spawn, cancel while queued, cancel after hand-off); then every sequence of two (thorough: three) requests over 8 forms x 4 deadlines x 2 origins, drained and delivered\",\"failures\":[{}]}}",
+    println!("{{\"scenarios\":{},\"samples\":[{}],\"bound\":\"one request per scenario: 8 request forms (Scheduler::schedule with each of the 4 action kinds built beforehand; the 4 schedule_*_event forms) x now in {{0,5}} x empty / one-entry queue x 7 deadlines (relative 0,1,3; absolute now-1, now, now+1, now+4) x periods {{0,1,2}} x 2 origins x 4 follow-ups (deliver, spawn, cancel while queued, cancel after hand-off); then every sequence of two (thorough: three) requests over 8 forms x 4 deadlines x 2 origins, drained and delivered; then every sequence of up to three (thorough: four) requests through the public Scheduler handle over its 5 methods x deadlines now+{{0,1,2}}\",\"failures\":[{}]}}",
         total, samples.join(","), fs.join(","));
 }
